@@ -203,8 +203,11 @@ Section BinReader.
     matches b conf = Some true -> params_ok b conf = true ->
     blen (b1 ++ enc_header kwd conf ++ b2) < W64 ->
     bias_read b (rst (b1 ++ enc_header kwd conf ++ b2) mx false false false (blen b1) o)
-    = let '(s3, e) := read_data b (rst (b1 ++ enc_header kwd conf ++ b2) mx false false false
-                                       (blen (b1 ++ enc_header kwd conf)) o) in BOk s3 e.
+    = match read_data b (rst (b1 ++ enc_header kwd conf ++ b2) mx false false false
+                             (blen (b1 ++ enc_header kwd conf)) o) with
+      | Some (s3, e) => BOk s3 e
+      | None => BErr
+      end.
   Proof.
     intros Hk Hc Hkw Hm Hp H. unfold enc_header in *. unfold BinReadModel.bias_read.
     rewrite <- (app_assoc (enc (IStr kwd))) in *.
@@ -214,51 +217,66 @@ Section BinReader.
     rewrite Hm, Hp. now rewrite <- !app_assoc.
   Qed.
 
-  (* a bias object with a hill list, cut anywhere but between two hills (or before the first / after the
-     last one), is an error; it is never taken for the state of another bias *)
-  Lemma bias_cut b kwd conf hs b1 p q mx o :
-    bb_kind b = 1%nat -> item_ok (IStr kwd) -> item_ok (IStr conf) ->
+  (* a bias object: header, the fixed data (keys and raw arrays, all mandatory), then (kind 1) hills *)
+  Definition enc_obj (kwd conf : list byte) (its : list item) (hs : list (list item)) : list byte :=
+    enc_header kwd conf ++ enc_all its ++ enc_hills hs.
+
+  (* the object cut anywhere -- inside the header, inside a key or an array of the fixed data, inside a hill --
+     is an error, except exactly between two hills (or before the first / after the last one) *)
+  Lemma bias_cut b kwd conf its hs b1 p q mx o :
+    (bb_kind b <> 1%nat -> hs = []) -> item_ok (IStr kwd) -> item_ok (IStr conf) ->
     bytes_eqb kwd (bb_kw b) || bytes_eqb kwd (bb_type b) = true ->
     matches b conf = Some true -> params_ok b conf = true ->
-    Forall (hill_ok (bb_nvar b)) hs ->
-    enc_header kwd conf ++ enc_hills hs = p ++ q -> q <> [] -> blen (b1 ++ p) < W64 ->
-    (forall k, p <> enc_header kwd conf ++ enc_hills (firstn k hs)) ->
+    fields_match (bb_fields b) its -> Forall (hill_ok (bb_nvar b)) hs ->
+    enc_obj kwd conf its hs = p ++ q -> q <> [] -> blen (b1 ++ p) < W64 ->
+    (forall k, p <> enc_header kwd conf ++ enc_all its ++ enc_hills (firstn k hs)) ->
     bias_read b (rst (b1 ++ p) mx false false false (blen b1) o) = BErr \/
     exists s, bias_read b (rst (b1 ++ p) mx false false false (blen b1) o) = BOk s true.
   Proof.
-    intros Hkind Hk Hc Hkw Hm Hpo Hhs He Hq H Hnb.
+    intros Hkind Hk Hc Hkw Hm Hpo Hits Hhs He Hq H Hnb. unfold enc_obj in He.
     destruct (Nat.le_gt_cases (length (enc_header kwd conf)) (length p)) as [Hle|Hgt].
-    - destruct (prefix_split _ _ _ _ He Hle) as (p3 & Hp & He3). subst p.
-      right. rewrite (bias_header_mid b kwd conf b1 p3 mx o Hk Hc Hkw Hm Hpo H).
-      unfold read_data. rewrite Hkind.
-      rewrite (app_assoc b1 (enc_header kwd conf) p3) in H |- *.
-      pose proof (hills_cut (bb_nvar b) hs (S (length ((b1 ++ enc_header kwd conf) ++ p3)))
-                            (b1 ++ enc_header kwd conf) p3 q mx o Hhs He3 Hq) as Hcut.
+    2:{ left. symmetry in He. destruct (prefix_split _ _ _ _ He) as (m & Hp & Hmq); [lia|].
+        assert (Hmn : m <> []) by (intros ->; rewrite app_nil_r in Hp; rewrite Hp in Hgt; lia).
+        exact (bias_header_cut b kwd conf b1 p m mx o Hk Hc Hkw Hp Hmn H). }
+    destruct (prefix_split _ _ _ _ He Hle) as (p2 & Hp & He2). subst p.
+    rewrite (bias_header_mid b kwd conf b1 p2 mx o Hk Hc Hkw Hm Hpo H).
+    unfold read_data. rewrite (app_assoc b1 (enc_header kwd conf) p2) in H |- *.
+    destruct (Nat.le_gt_cases (length (enc_all its)) (length p2)) as [Hle2|Hgt2].
+    2:{ left. symmetry in He2. destruct (prefix_split _ _ _ _ He2) as (m & Hp2 & Hmq); [lia|].
+        assert (Hmn : m <> []) by (intros ->; rewrite app_nil_r in Hp2; rewrite Hp2 in Hgt2; lia).
+        now rewrite (read_fields_trunc (bb_fields b) its (b1 ++ enc_header kwd conf) p2 m mx o Hits Hp2 Hmn H). }
+    destruct (prefix_split _ _ _ _ He2 Hle2) as (p3 & Hp2 & He3). subst p2.
+    rewrite (read_fields_mid (bb_fields b) its (b1 ++ enc_header kwd conf) p3 mx o Hits H).
+    rewrite (app_assoc (b1 ++ enc_header kwd conf) (enc_all its) p3) in H |- *.
+    destruct (Nat.eq_dec (bb_kind b) 1) as [Hk1|Hk1].
+    - right. rewrite Hk1.
+      pose proof (hills_cut (bb_nvar b) hs (S (length (((b1 ++ enc_header kwd conf) ++ enc_all its) ++ p3)))
+                            ((b1 ++ enc_header kwd conf) ++ enc_all its) p3 q mx o Hhs He3 Hq) as Hcut.
       cbn [ms_buf rst] in *.
       destruct (read_hills _ _ _) as [s3 e] eqn:E. cbn [snd] in Hcut.
       rewrite Hcut; [now exists s3 | | rewrite !app_length; lia | exact H].
       intros k Hk3. apply (Hnb k). now rewrite Hk3.
-    - left. symmetry in He. destruct (prefix_split _ _ _ _ He) as (m & Hp & Hmq); [lia|].
-      assert (Hmn : m <> []) by (intros ->; rewrite app_nil_r in Hp; rewrite Hp in Hgt; lia).
-      exact (bias_header_cut b kwd conf b1 p m mx o Hk Hc Hkw Hp Hmn H).
+    - exfalso. rewrite (Hkind Hk1) in He3. cbn [enc_hills map concat] in He3.
+      symmetry in He3. apply app_eq_nil in He3. destruct He3; congruence.
   Qed.
 
   (* the complement: a file that ends exactly between two hills of a bias object is accepted *)
-  Lemma bias_hill_boundary b kwd conf hs k b1 mx o :
+  Lemma bias_hill_boundary b kwd conf its hs k b1 mx o :
     bb_kind b = 1%nat -> item_ok (IStr kwd) -> item_ok (IStr conf) ->
     bytes_eqb kwd (bb_kw b) || bytes_eqb kwd (bb_type b) = true ->
     matches b conf = Some true -> params_ok b conf = true ->
-    Forall (hill_ok (bb_nvar b)) hs -> (k <= length hs)%nat ->
-    blen (b1 ++ enc_header kwd conf ++ enc_hills (firstn k hs)) < W64 ->
-    exists s, bias_read b (rst (b1 ++ enc_header kwd conf ++ enc_hills (firstn k hs)) mx false false false (blen b1) o)
+    fields_match (bb_fields b) its -> Forall (hill_ok (bb_nvar b)) hs -> (k <= length hs)%nat ->
+    blen (b1 ++ enc_header kwd conf ++ enc_all its ++ enc_hills (firstn k hs)) < W64 ->
+    exists s, bias_read b (rst (b1 ++ enc_header kwd conf ++ enc_all its ++ enc_hills (firstn k hs)) mx false false false (blen b1) o)
               = BOk s false.
   Proof.
-    intros Hkind Hk Hc Hkw Hm Hpo Hhs Hkl H.
+    intros Hkind Hk Hc Hkw Hm Hpo Hits Hhs Hkl H.
     rewrite (bias_header_mid b kwd conf b1 _ mx o Hk Hc Hkw Hm Hpo H).
-    unfold read_data. rewrite Hkind.
-    rewrite (app_assoc b1 (enc_header kwd conf)) in H |- *.
-    pose proof (hills_boundary (bb_nvar b) k hs (S (length ((b1 ++ enc_header kwd conf) ++ enc_hills (firstn k hs))))
-                               (b1 ++ enc_header kwd conf) mx o Hhs) as Hb.
+    unfold read_data. rewrite (app_assoc b1 (enc_header kwd conf)) in H |- *.
+    rewrite (read_fields_mid (bb_fields b) its (b1 ++ enc_header kwd conf) _ mx o Hits H).
+    rewrite (app_assoc (b1 ++ enc_header kwd conf) (enc_all its)) in H |- *. rewrite Hkind.
+    pose proof (hills_boundary (bb_nvar b) k hs (S (length (((b1 ++ enc_header kwd conf) ++ enc_all its) ++ enc_hills (firstn k hs))))
+                               ((b1 ++ enc_header kwd conf) ++ enc_all its) mx o Hhs) as Hb.
     cbn [ms_buf rst] in *.
     destruct (read_hills _ _ _) as [s3 e] eqn:E. cbn [snd] in Hb.
     rewrite Hb; [now exists s3 | | exact H].
@@ -329,14 +347,15 @@ Section WholeFile.
   Qed.
 
   (* a bias object without data after its configuration *)
-  Record bobj := mkO { o_b : bbias; o_kwd : list byte; o_conf : list byte; o_hs : list (list item) }.
-  Definition benc (x : bobj) : list byte := enc_header (o_kwd x) (o_conf x) ++ enc_hills (o_hs x).
+  Record bobj := mkO { o_b : bbias; o_kwd : list byte; o_conf : list byte; o_its : list item; o_hs : list (list item) }.
+  Definition benc (x : bobj) : list byte := enc_obj (o_kwd x) (o_conf x) (o_its x) (o_hs x).
   Definition obj_ok (x : bobj) : Prop :=
     item_ok (IStr (o_kwd x)) /\ item_ok (IStr (o_conf x)) /\
     bytes_eqb (o_kwd x) (bb_kw (o_b x)) || bytes_eqb (o_kwd x) (bb_type (o_b x)) = true /\
     matches (o_b x) (o_conf x) = Some true /\ params_ok (o_b x) (o_conf x) = true /\
-    Forall (hill_ok (bb_nvar (o_b x))) (o_hs x).
-  Definition plain (x : bobj) : Prop := bb_kind (o_b x) = 0%nat /\ o_hs x = [].
+    fields_match (bb_fields (o_b x)) (o_its x) /\ Forall (hill_ok (bb_nvar (o_b x))) (o_hs x).
+  (* an object without a list of hills: header and fixed data only (restraints, ABF with or without CZAR, histogram) *)
+  Definition plain (x : bobj) : Prop := bb_kind (o_b x) <> 1%nat /\ o_hs x = [].
 
   Lemma read_biases_sticky bs : forall s, read_biases bs s true = true.
   Proof.
@@ -344,16 +363,19 @@ Section WholeFile.
     destruct (bias_read b s) as [| |s' e]; [reflexivity | apply IH | apply IH].
   Qed.
 
-  Lemma plain_benc x : plain x -> benc x = enc_header (o_kwd x) (o_conf x).
-  Proof. intros [_ Hh]. unfold benc. rewrite Hh. cbn [enc_hills map concat]. now rewrite app_nil_r. Qed.
+  Lemma plain_benc x : plain x -> benc x = enc_header (o_kwd x) (o_conf x) ++ enc_all (o_its x).
+  Proof. intros [_ Hh]. unfold benc, enc_obj. rewrite Hh. cbn [enc_hills map concat]. now rewrite app_nil_r. Qed.
 
   Lemma plain_mid x b1 b2 mx o : obj_ok x -> plain x -> blen (b1 ++ benc x ++ b2) < W64 ->
     bias_read (o_b x) (rst (b1 ++ benc x ++ b2) mx false false false (blen b1) o)
     = BOk (rst (b1 ++ benc x ++ b2) mx false false false (blen (b1 ++ benc x)) o) false.
   Proof.
-    intros (Hk & Hc & Hkw & Hm & Hp & _) Hpl H. rewrite (plain_benc x Hpl) in *.
-    rewrite (bias_header_mid matches params_ok (o_b x) _ _ b1 b2 mx o Hk Hc Hkw Hm Hp H).
-    unfold read_data. destruct Hpl as [Hkind _]. now rewrite Hkind.
+    intros (Hk & Hc & Hkw & Hm & Hp & Hits & _) Hpl H. rewrite (plain_benc x Hpl) in *.
+    rewrite <- (app_assoc (enc_header (o_kwd x) (o_conf x))) in *.
+    rewrite (bias_header_mid matches params_ok (o_b x) _ _ b1 _ mx o Hk Hc Hkw Hm Hp H).
+    unfold read_data. rewrite (app_assoc b1 (enc_header (o_kwd x) (o_conf x))) in *.
+    rewrite (read_fields_mid _ _ (b1 ++ enc_header (o_kwd x) (o_conf x)) b2 mx o Hits H).
+    destruct Hpl as [Hkind _]. destruct (bb_kind (o_b x)) as [|[|k]]; try congruence; now rewrite <- !app_assoc.
   Qed.
 
   Lemma plain_objs_mid : forall xs rest b1 b2 mx o err, Forall obj_ok xs -> Forall plain xs ->
@@ -392,8 +414,13 @@ Section WholeFile.
         exact (IH rest _ p2 q mx o _ Hxs Hpxs He2 Hq H).
       + symmetry in He. destruct (prefix_split _ _ _ _ He) as (m & Hp & Hm); [lia|].
         assert (Hmn : m <> []) by (intros ->; rewrite app_nil_r in Hp; rewrite Hp in Hgt; lia).
-        destruct Hx as (Hk & Hc & Hkw & _). rewrite (plain_benc x Hpx) in Hp.
-        now rewrite (bias_header_cut matches params_ok (o_b x) _ _ b1 p m mx o Hk Hc Hkw Hp Hmn H).
+        destruct Hx as (Hk & Hc & Hkw & Hm' & Hpo & Hits & Hhs). destruct Hpx as [Hkind Hnil].
+        assert (Hp' : enc_obj (o_kwd x) (o_conf x) (o_its x) (o_hs x) = p ++ m) by exact Hp.
+        assert (Hnb : forall k, p <> enc_header (o_kwd x) (o_conf x) ++ enc_all (o_its x) ++ enc_hills (firstn k (o_hs x))).
+        { intros k Hk3. rewrite Hnil in *. rewrite firstn_nil in Hk3. unfold enc_obj in Hp'. rewrite <- Hk3 in Hp'.
+          apply (f_equal (@length byte)) in Hp'. rewrite app_length in Hp'. destruct m; [congruence | cbn [length] in Hp'; lia]. }
+        destruct (bias_cut matches params_ok (o_b x) _ _ _ _ b1 p m mx o (fun _ => Hnil) Hk Hc Hkw Hm' Hpo Hits Hhs Hp' Hmn H Hnb)
+          as [Hr | (s & Hr)]; rewrite Hr; [reflexivity | rewrite orb_true_r; apply read_biases_sticky].
   Qed.
 
   (* the global block *)
@@ -421,7 +448,7 @@ Section WholeFile.
     concat (map cv_enc datas) ++ concat (map benc xs) ++ match last with Some x => benc x | None => [] end = p ++ q ->
     q <> [] -> blen (magic ++ genc gconf ++ p) < W64 ->
     (forall x k, last = Some x ->
-       p <> concat (map cv_enc datas) ++ concat (map benc xs) ++ enc_header (o_kwd x) (o_conf x) ++ enc_hills (firstn k (o_hs x))) ->
+       p <> concat (map cv_enc datas) ++ concat (map benc xs) ++ enc_header (o_kwd x) (o_conf x) ++ enc_all (o_its x) ++ enc_hills (firstn k (o_hs x))) ->
     load_bin cv_ok matches params_ok (length datas)
              (map o_b xs ++ match last with Some x => [o_b x] | None => [] end) (magic ++ genc gconf ++ p) = true.
   Proof.
@@ -449,11 +476,11 @@ Section WholeFile.
     rewrite (plain_objs_mid xs _ (b1 ++ (concat (map cv_enc datas))) p3 mx false false Hxs Hpl H).
     rewrite (app_assoc (b1 ++ (concat (map cv_enc datas))) (concat (map benc xs)) p3) in *.
     destruct last as [x|].
-    - destruct Hlast as [(Hk & Hc & Hkw & Hm & Hpo & Hhs) Hkind]. unfold benc in He3.
+    - destruct Hlast as [(Hk & Hc & Hkw & Hm & Hpo & Hits & Hhs) Hkind]. unfold benc in He3.
       cbn [BinReadModel.read_biases].
-      assert (Hnb3 : forall k, p3 <> enc_header (o_kwd x) (o_conf x) ++ enc_hills (firstn k (o_hs x))).
+      assert (Hnb3 : forall k, p3 <> enc_header (o_kwd x) (o_conf x) ++ enc_all (o_its x) ++ enc_hills (firstn k (o_hs x))).
       { intros k Hk3. apply (Hnb x k eq_refl). now rewrite Hk3. }
-      destruct (bias_cut matches params_ok (o_b x) _ _ _ ((b1 ++ (concat (map cv_enc datas))) ++ (concat (map benc xs))) p3 q mx false Hkind Hk Hc Hkw Hm Hpo Hhs He3 Hq H Hnb3)
+      destruct (bias_cut matches params_ok (o_b x) _ _ _ _ ((b1 ++ (concat (map cv_enc datas))) ++ (concat (map benc xs))) p3 q mx false (fun Hx => False_ind _ (Hx Hkind)) Hk Hc Hkw Hm Hpo Hits Hhs He3 Hq H Hnb3)
         as [Hr | (s & Hr)]; rewrite Hr; [reflexivity | reflexivity].
     - symmetry in He3. apply app_eq_nil in He3. destruct He3; congruence.
   Qed.
